@@ -38,6 +38,26 @@ def main():
     from whatshap.__main__ import main as wmain
 
     sys.argv = ["whatshap"] + sys.argv[1:]
+    if os.environ.get("WV_INPROC_REPEAT"):
+        # the same command twice in one interpreter: the second execution starts from a different heap (object addresses,
+        # caches, module state left by the first) and overwrites the outputs of the first
+        sys.stdout.flush()
+        keep = os.dup(1)
+        null = os.open(os.devnull, os.O_WRONLY)
+        os.dup2(null, 1)  # what the first execution prints (unphase writes its VCF to stdout) is discarded
+        try:
+            try:
+                wmain()
+            except SystemExit as e:
+                if e.code not in (0, None):
+                    raise
+        finally:
+            sys.stdout.flush()
+            os.dup2(keep, 1)
+            os.close(keep)
+            os.close(null)
+        with open(os.environ["WV_PROBE_OUT"], "a") as fh:
+            fh.write(json.dumps({"inproc_repeat": True}) + "\n")
     wmain()
 
 
